@@ -61,6 +61,8 @@ def run(a):
             good &= expect_violation(ctx, mc, 'DataTypes ' + bug)
         mc = dict(module='DirLock', name='ST_DirLock', cfg=DIRLOCK_CFG.replace('Bug = {}', 'Bug = {"OpenLeaksLock"}'), consts=dict(Openers='{"p1g0", "p2g0"}', MaxSteps=6))
         good &= expect_violation(ctx, mc, 'DirLock OpenLeaksLock')
+        mc = dict(module='DirLock', name='ST_DirLock2', cfg=DIRLOCK_CFG.replace('Bug = {}', 'Bug = {"EarlyFailLeaksLock"}'), consts=dict(Openers='{"p1g0", "p2g0"}', MaxSteps=6))
+        good &= expect_violation(ctx, mc, 'DirLock EarlyFailLeaksLock')
 
         print('2. Tampering with an accepted real-engine trace: TLC must reject it')
         driver = vlib.build_driver(ctx)
